@@ -97,17 +97,17 @@ def compact(ev):
     return d
 
 
-def validate(v, rows, plans, d, workers=None, report=True):
+def validate(v, rows, plans, d, workers=None, report=True, module="TracePoolRun", cfg=None):
     """TLC decides which recorded runs are behaviours of PoolRun.tla. Returns (#accepted, #runs, states, rejected)."""
     byrun = {}
     for r_ in rows:
         byrun.setdefault(r_["run"], []).append(r_)
-    path = os.path.join(d, "trace_%d.ndjson" % len(rows))
+    path = os.path.join(d, "%s_%d.ndjson" % (module, len(rows)))
     vlib.write_ndjson(path, rows)
-    tr = vlib.tlc("TracePoolRun", "TracePoolRun.cfg", env={"VERIF_TRACE": path}, workers=workers, deadlock=False,
+    tr = vlib.tlc(module, (cfg or module) + ".cfg", env={"VERIF_TRACE": path}, workers=workers, deadlock=False,
                   timeout=2400, heap="8g")
     if tr.error:
-        raise vlib.MachineryError("TracePoolRun failed: %s\n%s" % (tr.kind, tr.out[-3000:]))
+        raise vlib.MachineryError("%s failed: %s\n%s" % (module, tr.kind, tr.out[-3000:]))
     if tr.violation:
         # an invariant of the design module failing on a state reached by following a recorded run
         raise vlib.MachineryError("TracePoolRun: %s %s on a trace state (the design run should have found it)\n%s"
@@ -115,11 +115,11 @@ def validate(v, rows, plans, d, workers=None, report=True):
     acc = {int(m.group(1)) for m in re.finditer(r'<<"VERIF-ACC", (\d+)>>', tr.out)}
     rejected = sorted(k for k in byrun if k not in acc)
     if rejected and report:
-        diagnose(v, rejected, byrun, plans, d)
+        diagnose(v, rejected, byrun, plans, d, module, cfg)
     return len(byrun) - len(rejected), len(byrun), tr.distinct, rejected
 
 
-def diagnose(v, rejected, byrun, plans, d):
+def diagnose(v, rejected, byrun, plans, d, module="TracePoolRun", cfg=None):
     """Where does the specification stop following each rejected run?  (single worker, progress printed)"""
     pl_by_id = {p["id"]: p for p in plans}
     # one representative per plan, at most 12 diagnosed in detail
@@ -131,9 +131,9 @@ def diagnose(v, rejected, byrun, plans, d):
             pick.append(k)
     pick = pick[:12]
     rows = [e for k in pick for e in byrun[k]]
-    path = os.path.join(d, "diag.ndjson")
+    path = os.path.join(d, module + "_diag.ndjson")
     vlib.write_ndjson(path, rows)
-    tr = vlib.tlc("TracePoolRun", "TracePoolRun_diag.cfg", env={"VERIF_TRACE": path}, workers=1, deadlock=False,
+    tr = vlib.tlc(module, (cfg or module) + "_diag.cfg", env={"VERIF_TRACE": path}, workers=1, deadlock=False,
                   timeout=1200, heap="4g")
     if tr.error:
         raise vlib.MachineryError("TracePoolRun (diagnosis) failed: %s\n%s" % (tr.kind, tr.out[-3000:]))
@@ -154,14 +154,15 @@ def diagnose(v, rejected, byrun, plans, d):
         stuck = evs[idx] if idx < len(evs) else {"ev": "EOF", "cls": ""}
         hang = next((e["ev"] for e in evs if e["ev"] in ("WaitHang", "RunHang")), None)
         ret = next((e for e in evs if e["ev"] == "RunReturn"), None)
-        sig = "%s rejected_at=%s:%s%s" % (plan_sig(pl), stuck["ev"], stuck.get("cls", ""), (" hang=" + hang) if hang else "")
-        what = ("real engine run under fault plan %d (%s) is not a behaviour of PoolRun.tla: the specification cannot take "
+        sig = "%s%s rejected_at=%s:%s%s" % ("engine " if module == "TraceEngine" else "", plan_sig(pl), stuck["ev"],
+                                            stuck.get("cls", ""), (" hang=" + hang) if hang else "")
+        what = ("real engine run under fault plan %d (%s) is not a behaviour of %s: the specification cannot take "
                 "event #%d %s; Run returned %s%s; %d of the recorded runs of this plan rejected"
-                % (pl["id"], plan_sig(pl), idx, compact(stuck),
+                % (pl["id"], plan_sig(pl), "Engine.tla" if module == "TraceEngine" else "PoolRun.tla", idx, compact(stuck),
                    (ret["cls"] + (":" + ret["c"] if ret["c"] else "")) if ret else "never",
                    ("; " + hang + " (Engine.Wait/Run never returned within the watchdog, confirmed twice)") if hang else "",
                    nrej[pl["id"]]))
-        v.violation(sig, what, replay_obj={"kind": "trace", "plan": pl, "events": evs, "rejected_at": idx},
+        v.violation(sig, what, replay_obj={"kind": "trace", "module": module, "cfg": cfg, "plan": pl, "events": evs, "rejected_at": idx},
                     replay_name="plan%d_run%d.json" % (pl["id"], k))
 
 
@@ -200,7 +201,7 @@ def run(tier, v):
     t0 = time.time()
     # ---- 1. design level; TLC also prints the fault-plan catalogue --------------------------------
     main_cfg = "PoolRun_thorough.cfg" if thorough else "PoolRun_quick.cfg"
-    pool = ThreadPoolExecutor(max_workers=5)
+    pool = ThreadPoolExecutor(max_workers=6)
     f_main = pool.submit(vlib.tlc, "PoolRunPlans", main_cfg, None, max(4, ncpu // 2), 3000, heap="16g" if thorough else "6g")
     f_build = pool.submit(vlib.harness_build)
 
@@ -229,6 +230,20 @@ def run(tier, v):
             res.append((cfg, r))
         return res
 
+    import c05_engine
+    f_eng = pool.submit(c05_engine.design, thorough, fix_temporal)
+    def three():
+        """growth: three instances with a startup schedule (MaxN = 3), thorough tier only"""
+        r3 = fix_temporal(vlib.tlc("PoolRunPlans", "PoolRun_n3.cfg", workers=max(4, ncpu // 2), timeout=3000, heap="12g"))
+        vlib.log("   (PoolRun_n3.cfg)")
+        vlib.tlc_must_pass(r3, "PoolRun_n3.cfg")
+        rn = fix_temporal(vlib.tlc("PoolRunMC", "PoolRun_neg_n3_suppress.cfg", workers=2, timeout=900))
+        vlib.tlc_must_fail(rn, "PoolRun_neg_n3_suppress.cfg")
+        if rn.what != "Outcome":
+            raise vlib.MachineryError("negative control PoolRun_neg_n3_suppress failed with %s %s" % (rn.kind, rn.what))
+        return r3, parse_plans(r3)
+
+    f_three = pool.submit(three) if thorough else None
     f_side = pool.submit(side, 0)
     f_side2 = pool.submit(side, 1)
     f_live = pool.submit(live)
@@ -241,7 +256,6 @@ def run(tier, v):
     b = f_build.result()
     negs = f_side.result() + f_side2.result()
     lives = f_live.result()
-    pool.shutdown()
     states = rmain.distinct + sum(r.distinct for _, r in lives)
     trans = rmain.generated + sum(r.generated for _, r in lives)
     vlib.log("design level: %d states, %.0fs" % (states, time.time() - t0))
@@ -257,7 +271,21 @@ def run(tier, v):
     p = vlib.run_driver(b, args, timeout=3000)
     stats = json.loads(p.stdout.strip().splitlines()[-1])
     rows = vlib.read_ndjson(out)
+    eng = f_eng.result()
+    f_engbind = pool.submit(c05_engine.bind, thorough, v, b, d, eng, validate)
     accepted, nruns, tstates, rejected = validate(v, rows, plans, d, workers=ncpu)
+    engb = f_engbind.result()
+    three_cov = {}
+    if thorough:
+        r3, plans3 = f_three.result()
+        pf3, out3 = os.path.join(d, "plans3.ndjson"), os.path.join(d, "runs3.ndjson")
+        vlib.write_ndjson(pf3, plans3)
+        vlib.run_driver(b, ["poolrun", "-plans", pf3, "-out", out3, "-runs", "40"], timeout=3000)
+        rows3 = vlib.read_ndjson(out3)
+        acc3, n3, ts3, rej3 = validate(v, rows3, plans3, d, workers=ncpu, cfg="TracePoolRun3")
+        three_cov = {"three_instances_states": r3.distinct, "three_instances_transitions": r3.generated,
+                     "three_instances_plans": len(plans3), "three_instances_runs": n3,
+                     "three_instances_traces_validated": acc3, "three_instances_trace_validation_states": ts3}
     corrupted = 0
     if thorough and not rejected:
         corrupted = binding_selftest(v, rows, plans, d)
@@ -295,7 +323,17 @@ def run(tier, v):
         "design_configs": [main_cfg] + [c for c, _ in lives],
         "negative_controls": [c for c, _, _ in NEGATIVE],
         "exhaustive": False,
+        "engine_module": dict(eng["coverage"], **engb),
+        "three_instances": three_cov,
     }
+    if thorough:
+        cov["states"] += three_cov["three_instances_states"]
+        cov["transitions"] += three_cov["three_instances_transitions"]
+        cov["traces_validated_against_impl"] += three_cov["three_instances_traces_validated"]
+    cov["states"] += eng["states"]
+    cov["transitions"] += eng["transitions"]
+    cov["traces_validated_against_impl"] += engb["engine_traces_validated"]
+    pool.shutdown()
     return "model_checking", cov, [
         "design bounds: <= 2 instances, <= 2 schedule tokens, <= 3 ammo, one fault per pool + one user cancel, 1 or 2 pools; "
         "quick tier explores the no-cancel plans exhaustively, the thorough tier every plan incl. cancel at every step and 2 pools",
@@ -312,5 +350,5 @@ def replay(path, v):
     obj = json.load(open(path))
     d = vlib.scratch()
     evs = obj["events"]
-    acc, n, _, rej = validate(v, evs, [obj["plan"]], d, workers=1)
+    acc, n, _, rej = validate(v, evs, [obj["plan"]], d, workers=1, module=obj.get("module", "TracePoolRun"), cfg=obj.get("cfg"))
     return None
